@@ -117,6 +117,13 @@ claim("C19", "model_checking",
       "and `schema apply --env` with diff.skip on SQLite must never mention an excluded table or plan a skipped kind.",
       "Trusted: pattern rendering; skippable kinds = those of cmdapi.SkipChanges produced by the model.",
       "3 C19")
+claim("C18", "exploration",
+      "TLA+ model of directory histories with per-statement life-span bookkeeping (LintModel.tla, classes checked by TLC), TLC-simulated histories rendered as SQL (DROP / ALTER .. DROP COLUMN / rebuild) and planned by `migrate diff`; the real `migrate lint` observations validated by TLC (LintMonitor.tla)",
+      "TLC exhausts the model (2 / 3 files x 2 statements) for consistency of the classes Destructive / PureAdditive / TempOnly and simulates 120 (1500, thorough) histories of up to 3 files x 3 statements over two tables with optional and VIRTUAL "
+      "columns. Each history becomes a hand-written directory (all three spellings of a column drop) and a directory planned file-by-file by `atlas migrate diff`; `migrate lint --latest N` runs for every window N against an in-memory SQLite dev database; "
+      "the monitor requires, per file in the window: destructive => DS102/DS103 on a causing statement and a failing exit; additive or temp-only => no destructive diagnostic.",
+      "Exploration level: random histories; files neither destructive nor additive/temp-only are unconstrained. Trusted: position -> statement mapping, SQLite dev database.",
+      "3 C18")
 claim("C15", "exploration",
       "HCL round trip as an observation step of SchemaModel.tla, parametric in the type ids; registry-wide FormatType/ParseType fixpoint and MarshalHCL/EvalHCL round trips validated by TLC (HCLTrace.tla)",
       "For MySQL, PostgreSQL and SQLite every registered type spec x parameter grid is formatted, parsed and re-formatted (fixpoint) and round-tripped in a one-column table; the instances are rotated into the opaque types of 400 (all, thorough) "
